@@ -1,9 +1,664 @@
 (** Property checkers evaluated on the implementation's observed outputs (TG cases). *)
 From Coq Require Import List NArith String Bool.
 From V Require Import Base.Util Base.Strings Base.Result Model.Registry Model.Settings Model.Subst
-  Model.TypePath Model.Derives Model.Generate Model.Emit Model.Equal Model.Builders Corr.RunTG.
+  Model.TypePath Model.Derives Model.Generate Model.Emit Model.Equal Model.Builders Checkers.Parse Checkers.Sem Corr.RunTG.
 Import ListNotations.
 Open Scope string_scope. Open Scope list_scope.
 
 Definition hyp_gen_ok (c : tg_case) : bool :=
   match tg_gen c with OOk _ => true | _ => false end.
+
+Definition corr_case (c : tg_case) : bool :=
+  corr_ops c && corr_gen c && corr_paths c && corr_upcasts c.
+
+Definition corr_pair (p : tg_pair) : bool := corr_case (tp_a p) && corr_case (tp_b p).
+
+Definition hyp_both_ok (p : tg_pair) : bool := hyp_gen_ok (tp_a p) && hyp_gen_ok (tp_b p).
+
+(* placeholders, replaced below as the checkers land *)
+
+Definition fenv_of (s : settings) : fenv :=
+  mk_fenv (s_root s) (toks_to_segs (alloc_tokens (s_alloc s))) (option_map toks_to_segs (s_compact s))
+          (option_map toks_to_segs (s_bits s)) (s_subs s) (s_codec s).
+
+(** item-eligible: what the generation loop turns into an item *)
+Definition item_eligible (s : settings) (t : ty) : bool :=
+  is_composite_or_variant (t_def t) && negb (subs_contains (s_subs s) (t_path t)) &&
+  match namespace (t_path t) with [] => false | _ => true end.
+
+(** [skeleton_consistent] (DESIGN 3.3): every item-eligible entry has the same
+    skeleton as the first entry with its path; skeletons are compared through
+    their tokens, which contain everything but the concrete ids *)
+Definition skeleton_tokens (r : registry) (s : settings) (t : ty) : option tokens :=
+  match create_type_ir r s t (mk_flat derives_empty []) with
+  | Ok (Some ir) => match type_ir_tokens s ir with Ok tk => Some tk | _ => None end
+  | _ => None
+  end.
+
+Definition skeleton_consistentb (r : registry) (s : settings) : bool :=
+  forallb (fun e =>
+             let t := snd e in
+             if item_eligible s t then
+               match find (fun e' => path_eqb (t_path (snd e')) (t_path t) && item_eligible s (snd e')) r with
+               | Some e' => match skeleton_tokens r s t, skeleton_tokens r s (snd e') with
+                            | Some a, Some b => tokens_eqb a b
+                            | _, _ => false
+                            end
+               | None => false
+               end
+             else true) r.
+
+Definition hyp_coincidence_free (c : tg_case) : bool :=
+  skeleton_consistentb (tg_reg c) (settings_of (tg_spec c)).
+
+(** C01 on the observed output: every id whose path was resolved is faithfully
+    represented by the parsed observed module *)
+Definition faithful_obs (c : tg_case) : bool :=
+  let r := tg_reg c in
+  let s := settings_of (tg_spec c) in
+  match tg_gen c with
+  | OOk toks =>
+      match parse_module toks with
+      | None => false
+      | Some m =>
+          forallb (fun '(id, o) =>
+                     match o with
+                     | OOk pt => match parse_type pt with
+                                 | Some t => faithful_id r (fenv_of s) m id t
+                                 | None => false
+                                 end
+                     | _ => true
+                     end) (combine (ids_of r) (tg_paths c))
+      end
+  | _ => true
+  end.
+
+Definition prop_faithful (c : tg_case) : bool :=
+  if hyp_coincidence_free c then faithful_obs c else true.
+Definition prop_syn_parses (c : tg_case) : bool := tg_syn_ok c.
+Definition parsed (c : tg_case) : option pmod :=
+  match tg_gen c with OOk t => parse_module t | _ => None end.
+Definition prop_closed (c : tg_case) : bool :=
+  let s := settings_of (tg_spec c) in
+  match tg_gen c with
+  | OOk t =>
+      match parse_module t with
+      | Some m =>
+          closedb (s_root s) m &&
+          forallb (fun o => match o with
+                            | OOk pt => match parse_type pt with
+                                        | Some ty => path_closedb (s_root s) m ty
+                                        | None => false
+                                        end
+                            | _ => true
+                            end) (tg_paths c)
+      | None => false
+      end
+  | _ => true
+  end.
+(** ** C07 on observed outputs *)
+Definition mentions_path (root : string) (p : list string) (t : pty) : bool :=
+  existsb (fun ls : bool * list (string * list pty) =>
+             negb (fst ls) && list_eqb String.eqb (map fst (snd ls)) (root :: p)) (pty_paths t).
+
+Definition obs_path (c : tg_case) (id : N) : option tokens :=
+  match nth_error (tg_paths c) (N.to_nat id) with Some (OOk t) => Some t | _ => None end.
+
+Definition prop_subst (c : tg_case) : bool :=
+  let r := tg_reg c in
+  let s := settings_of (tg_spec c) in
+  let subs := filter (fun kv => negb (match fst kv with [_] => true | _ => false end)) (s_subs s) in
+  match tg_gen c with
+  | OOk toks =>
+      match parse_module toks with
+      | None => false
+      | Some m =>
+          forallb (fun kv =>
+                     match lookup_item m (fst kv) with Some _ => false | None => true end &&
+                     forallb (fun pit : list string * pitem =>
+                                forallb (fun t => negb (mentions_path (s_root s) (fst kv) t))
+                                        (item_field_types (snd pit))) (all_items m []) &&
+                     forallb (fun o => match o with
+                                       | OOk pt => match parse_type pt with
+                                                   | Some t => negb (mentions_path (s_root s) (fst kv) t)
+                                                   | None => true
+                                                   end
+                                       | _ => true
+                                       end) (tg_paths c)) subs &&
+          (* pass-through rules: target applied to the observed resolved arguments in order *)
+          forallb (fun '(id, e) =>
+                     let t := snd e in
+                     if is_composite_or_variant (t_def t) then
+                       match subs_get (s_subs s) (t_path t), obs_path c id with
+                       | Some sub, Some o =>
+                           match su_map sub with
+                           | PassThrough =>
+                               let args := map (obs_path c) (param_ids t) in
+                               if forallb (fun a => match a with Some _ => true | None => false end) args then
+                                 let argt := flat_map (fun a => match a with Some x => [x] | None => [] end) args in
+                                 tokens_eqb o (print_spath (su_path sub) ++
+                                               match argt with
+                                               | [] => []
+                                               | _ => ["<"] ++ sep_by [","] argt ++ [">"]
+                                               end)
+                               else true
+                           | Specified _ => true
+                           end
+                       | _, _ => true
+                       end
+                     else true) (combine (ids_of r) r)
+      end
+  | _ => true
+  end.
+
+Definition hyp_has_subst (c : tg_case) : bool :=
+  existsb (fun e => subs_contains (s_subs (settings_of (tg_spec c))) (t_path (snd e)) &&
+                    negb (starts_with "bitvec" (hd "" (t_path (snd e))))) (tg_reg c).
+
+(** ** C08 on observed outputs: derive / attribute sets per item *)
+Definition children_of (r : registry) (id : N) : list N :=
+  match resolve r id with Some t => collect_children t | None => [] end.
+
+(** reachability as an iterated closure (independent of the DFS of the model) *)
+Fixpoint closure (n : nat) (r : registry) (set : list N) : list N :=
+  match n with
+  | O => set
+  | S n' =>
+      let next := fold_left (fun acc i => fold_left (fun acc c => if mem_N c acc then acc else c :: acc)
+                                                    (children_of r i) acc) set set in
+      closure n' r next
+  end.
+
+Definition first_with_path (r : registry) (p : list string) : option N :=
+  (fix go (i : N) (l : registry) :=
+     match l with
+     | [] => None
+     | e :: l' => if path_eqb (t_path (snd e)) p then Some i else go (i + 1)%N l'
+     end) 0%N r.
+
+Definition tokset_subset (a b : list tokens) : bool := forallb (fun x => existsb (tokens_eqb x) b) a.
+Definition tokset_eq (a b : list tokens) : bool := tokset_subset a b && tokset_subset b a.
+
+Definition uint_prims : list string := ["u8"; "u16"; "u32"; "u64"; "u128"].
+
+Definition expected_derives (r : registry) (s : settings) (p : list string) (it : pitem)
+  : list tokens * list tokens :=
+  let dr := s_dreg s in
+  let key := path_key p in
+  let spec := match kmap_get (dr_specific dr) key with Some d => d | None => derives_empty end in
+  let recs := flat_map (fun kd : tykey * derives =>
+                          (* the key must be exactly the path (no leading colon, no generics) *)
+                          if String.eqb (k_key (fst kd)) (path_key (k_segs (fst kd))) then
+                            let roots := flat_map (fun ie : N * (N * ty) =>
+                                                     if path_eqb (t_path (snd (snd ie))) (k_segs (fst kd))
+                                                     then [fst ie] else []) (combine (ids_of r) r) in
+                            let reach := closure (List.length r) r roots in
+                            if existsb (fun i => match resolve r i with
+                                                 | Some t => path_eqb (t_path t) p
+                                                 | None => false end) reach
+                            then [snd kd] else []
+                          else []) (dr_recursive dr) in
+  let all := fold_left derives_union recs (derives_union (dr_default dr) spec) in
+  let compact_as :=
+    match s_compact_as s, first_with_path r p with
+    | Some k, Some id =>
+        match resolve r id with
+        | Some t =>
+            match t_def t, body_fields (pi_body it) with
+            | TDComposite [f], pf :: _ =>
+                match resolve r (f_ty f), pf_ty pf with
+                | Some ft, PPath true segs =>
+                    match t_def ft, path_is segs ["core"; "primitive"; last (map fst segs) ""] with
+                    | TDPrimitive _, Some [] =>
+                        if existsb (String.eqb (last (map fst segs) "")) uint_prims then [snd k] else []
+                    | _, _ => []
+                    end
+                | _, _ => []
+                end
+            | _, _ => []
+            end
+        | None => []
+        end
+    | _, _ => []
+    end in
+  (map snd (d_derives all) ++ compact_as, map snd (d_attrs all)).
+
+Definition prop_derives_exact (c : tg_case) : bool :=
+  let r := tg_reg c in
+  let s := settings_of (tg_spec c) in
+  match tg_gen c with
+  | OOk toks =>
+      match parse_module toks with
+      | None => false
+      | Some m =>
+          forallb (fun pit : list string * pitem =>
+                     let '(ed, ea) := expected_derives r s (fst pit) (snd pit) in
+                     let od := derive_list (pi_attrs (snd pit)) in
+                     let oa := map (fun a => "#" :: "[" :: a ++ ["]"])
+                                   (filter (fun a => negb (attr_is "derive" a || attr_is "doc" a))
+                                           (pi_attrs (snd pit))) in
+                     tokset_eq od ed && tokset_eq oa ea &&
+                     (* sorted by token string and duplicate free *)
+                     (fix sorted (l : list tokens) :=
+                        match l with
+                        | a :: ((b :: _) as l') => str_ltb (key_of_tokens a) (key_of_tokens b) && sorted l'
+                        | _ => true
+                        end) od) (all_items m [])
+      end
+  | _ => true
+  end.
+
+Definition hyp_has_recursive (c : tg_case) : bool :=
+  match dr_recursive (s_dreg (settings_of (tg_spec c))) with [] => false | _ => true end.
+
+(** ** C10 *)
+Definition prop_fault_expect (c : tg_case) : bool :=
+  match tg_expect c with
+  | None => true
+  | Some (k, nums) =>
+      match tg_gen c with
+      | OErr k' nums' _ => String.eqb k k' && list_eqb N.eqb nums nums'
+      | _ => false
+      end
+  end.
+
+(** decidable well-formedness of the input (DESIGN 3.1, the clauses generation depends on) *)
+Definition prelude_names : list string := map fst (prelude_table []).
+
+Definition rank_ok (r : registry) : bool :=
+  (* the non-field graph admits a rank: iterate "all non-field children already ranked" *)
+  let nonfield (t : ty) : list N :=
+    param_ids t ++ match t_def t with
+                   | TDComposite _ | TDVariant _ => []
+                   | d => def_ids d
+                   end in
+  let n := List.length r in
+  let ranked :=
+    (fix go (k : nat) (done : list N) : list N :=
+       match k with
+       | O => done
+       | S k' =>
+           go k' (fold_left (fun acc '(i, e) =>
+                               if mem_N i acc then acc
+                               else if forallb (fun c => mem_N c acc) (nonfield (snd e)) then i :: acc else acc)
+                            (combine (ids_of r) r) done)
+       end) n [] in
+  Nat.eqb (List.length ranked) n.
+
+Definition wf_regb (r : registry) : bool :=
+  ids_consistent r && closed_reg r && rank_ok r &&
+  forallb (fun e =>
+             let t := snd e in
+             match t_def t with
+             | TDComposite _ | TDVariant _ =>
+                 match t_path t with
+                 | [] => false
+                 | [i] => existsb (String.eqb i) prelude_names &&
+                          (negb (String.eqb i "Cow") ||
+                           match t_params t with p0 :: _ => match tp_ty p0 with Some _ => true | None => false end | [] => false end)
+                 | p => forallb ident_okb p && negb (String.eqb (last p "") "Cow")
+                 end &&
+                 match t_def t with
+                 | TDComposite fs => (all_named fs || all_unnamed fs) &&
+                                     forallb (fun f => match f_name f with Some n => ident_okb n | None => true end) fs
+                 | TDVariant vs => forallb (fun v => ident_okb (v_name v) &&
+                                                     (all_named (v_fields v) || all_unnamed (v_fields v)) &&
+                                                     forallb (fun f => match f_name f with Some n => ident_okb n | None => true end)
+                                                             (v_fields v)) vs
+                 | _ => true
+                 end
+             | TDPrimitive (PU256 | PI256) => false
+             | _ => match t_path t with [] => true | _ => false end
+             end) r.
+
+Definition supportedb (r : registry) (s : settings) : bool :=
+  (match s_compact s with
+   | Some _ => true
+   | None => negb (existsb (fun e => match t_def (snd e) with TDCompact _ => true | _ => false end) r)
+   end) &&
+  (match s_bits s with
+   | Some _ => true
+   | None => negb (existsb (fun e => match t_def (snd e) with TDBitSeq _ _ => true | _ => false end) r)
+   end) &&
+  ident_okb (s_root s).
+
+Definition hyp_wf (c : tg_case) : bool :=
+  wf_regb (tg_reg c) && supportedb (tg_reg c) (settings_of (tg_spec c)).
+
+(** on well-formed input generation is Ok or the duplicate-path error, never a panic *)
+Definition prop_wf_total (c : tg_case) : bool :=
+  if hyp_wf c then
+    match tg_gen c with
+    | OOk _ => true
+    | OErr k _ _ => String.eqb k "DuplicateTypePath"
+    | OPanic => false
+    end &&
+    forallb (fun o => match o with OOk _ => true | _ => false end) (tg_paths c)
+  else true.
+
+(** ** C18: standalone structs *)
+Definition prop_standalone (c : tg_case) : bool :=
+  let r := tg_reg c in
+  let s := settings_of (tg_spec c) in
+  match tg_gen c with
+  | OOk toks =>
+      match parse_module toks with
+      | None => false
+      | Some m =>
+          forallb (fun '(id, vi, o) =>
+                     match o, resolve r id with
+                     | OOk st, Some t =>
+                         if negb (item_eligible s t && option_eqb N.eqb (first_with_path r (t_path t)) (Some id)) then true else
+                         match parse_one_item st, lookup_item m (t_path t) with
+                         | Some sit, Some it =>
+                             (* only types whose generated item has no generics *)
+                             match pi_generics it with
+                             | _ :: _ => true
+                             | [] =>
+                                 let own :=
+                                   match vi with
+                                   | None => Some (pi_name it, pi_body it)
+                                   | Some k => match nth_error (pi_variants it) (N.to_nat k) with
+                                               | Some pv => Some (pv_name pv, pv_body pv)
+                                               | None => None
+                                               end
+                                   end in
+                                 match own with
+                                 | None => false
+                                 | Some (name, body) =>
+                                     negb (pi_is_enum sit) && String.eqb (pi_name sit) name &&
+                                     (match pi_generics sit with [] => true | _ => false end) &&
+                                     (* same field names, types, Box and compact markers *)
+                                     (let fa := body_fields (pi_body sit) in
+                                      let fb := body_fields body in
+                                      Nat.eqb (List.length fa) (List.length fb) &&
+                                      forallb (fun ab : pfield * pfield =>
+                                                 option_eqb String.eqb (pf_name (fst ab)) (pf_name (snd ab)) &&
+                                                 pty_eqb (pf_ty (fst ab)) (pf_ty (snd ab)) &&
+                                                 Bool.eqb (has_attr compact_attr_toks (pf_attrs (fst ab)))
+                                                          (has_attr compact_attr_toks (pf_attrs (snd ab))) &&
+                                                 pf_pub (fst ab)) (combine fa fb) &&
+                                      match pi_body sit, body with
+                                      | BUnit, BUnit | BTuple _, BTuple _ | BNamed _, BNamed _ => true
+                                      | _, _ => false
+                                      end) &&
+                                     (* struct forms: unit and tuple structs end with a semicolon *)
+                                     (match pi_body sit with BNamed _ => negb (pi_semi sit) | _ => pi_semi sit end) &&
+                                     (* exactly the global derives / attributes (+ CompactAs rule) *)
+                                     (let dr := s_dreg s in
+                                      let cas :=
+                                        match s_compact_as s, body_fields (pi_body sit) with
+                                        | Some k, [pf] =>
+                                            match pf_ty pf with
+                                            | PPath true segs =>
+                                                if list_eqb String.eqb (removelast (map fst segs)) ["core"; "primitive"] &&
+                                                   existsb (String.eqb (last (map fst segs) "")) uint_prims &&
+                                                   negb (has_attr compact_attr_toks (pf_attrs pf)) &&
+                                                   (* a compact field has the primitive type but is not a candidate *)
+                                                   match upcast_fields r id vi with
+                                                   | Some (_, [f], _) =>
+                                                       match resolve r (f_ty f) with
+                                                       | Some ft => match t_def ft with TDPrimitive _ => true | _ => false end
+                                                       | None => false
+                                                       end
+                                                   | _ => false
+                                                   end
+                                                then [snd k] else []
+                                            | _ => []
+                                            end
+                                        | _, _ => []
+                                        end in
+                                      tokset_eq (derive_list (pi_attrs sit)) (map snd (d_derives (dr_default dr)) ++ cas) &&
+                                      tokset_eq (map (fun a => "#" :: "[" :: a ++ ["]"])
+                                                     (filter (fun a => negb (attr_is "derive" a || attr_is "doc" a)) (pi_attrs sit)))
+                                                (map snd (d_attrs (dr_default dr))))
+                                 end
+                             end
+                         | _, _ => false
+                         end
+                     | _, _ => true
+                     end) (tg_upcasts c)
+      end
+  | _ => true
+  end.
+
+Definition obs_tokens_eqb (a b : obs tokens) : bool := obs_eqb tokens_eqb a b.
+
+(** ** pairs *)
+Definition items_of (c : tg_case) : option (list (list string * pitem)) :=
+  match tg_gen c with
+  | OOk t => match parse_module t with Some m => Some (all_items m []) | None => None end
+  | _ => None
+  end.
+
+(** tokens of one item, re-read from the observed module: split at item level by the parser is
+    not needed for equality; compare parsed items structurally *)
+Fixpoint pfields_eqb (a b : list pfield) : bool :=
+  match a, b with
+  | [], [] => true
+  | x :: a', y :: b' =>
+      list_eqb tokens_eqb (pf_attrs x) (pf_attrs y) && Bool.eqb (pf_pub x) (pf_pub y) &&
+      option_eqb String.eqb (pf_name x) (pf_name y) && pty_eqb (pf_ty x) (pf_ty y) && pfields_eqb a' b'
+  | _, _ => false
+  end.
+Definition pbody_eqb (a b : pbody) : bool :=
+  match a, b with
+  | BUnit, BUnit => true
+  | BTuple x, BTuple y | BNamed x, BNamed y => pfields_eqb x y
+  | _, _ => false
+  end.
+Definition pitem_eqb (a b : pitem) : bool :=
+  list_eqb tokens_eqb (pi_attrs a) (pi_attrs b) && Bool.eqb (pi_is_enum a) (pi_is_enum b) &&
+  String.eqb (pi_name a) (pi_name b) && list_eqb String.eqb (pi_generics a) (pi_generics b) &&
+  pbody_eqb (pi_body a) (pi_body b) &&
+  list_eqb (fun x y => list_eqb tokens_eqb (pv_attrs x) (pv_attrs y) && String.eqb (pv_name x) (pv_name y) &&
+                       pbody_eqb (pv_body x) (pv_body y)) (pi_variants a) (pi_variants b).
+
+Definition settings_valid (c : tg_case) : bool :=
+  let s := settings_of (tg_spec c) in
+  verror_is_empty (validate (s_subs s) (s_dreg s) (tg_reg c)).
+
+(** hypotheses of C17: both registries coincidence-free; for restriction also
+    settings that are valid for both registries (a derive registered for a path
+    that was not retained cannot reach the retained types) *)
+Definition hyp_c17 (p : tg_pair) : bool :=
+  hyp_coincidence_free (tp_a p) && hyp_coincidence_free (tp_b p) &&
+  (if String.eqb (tp_kind p) "retain" then settings_valid (tp_a p) && settings_valid (tp_b p) else true).
+
+Definition prop_same_tokens (p : tg_pair) : bool :=
+  if String.eqb (tp_kind p) "same" then
+    obs_tokens_eqb (tg_gen (tp_a p)) (tg_gen (tp_b p))
+  else if negb (hyp_c17 p) then true
+  else if String.eqb (tp_kind p) "renumbered" then
+    obs_tokens_eqb (tg_gen (tp_a p)) (tg_gen (tp_b p))
+  else if String.eqb (tp_kind p) "retain" then
+    (* every retained path has the same item as in the full registry *)
+    match tg_gen (tp_a p), tg_gen (tp_b p) with
+    | OOk _, OOk _ =>
+        match items_of (tp_a p), items_of (tp_b p) with
+        | Some ia, Some ib =>
+            forallb (fun pb : list string * pitem =>
+                       match find (fun pa : list string * pitem => path_eqb (fst pa) (fst pb)) ia with
+                       | Some pa => pitem_eqb (snd pa) (snd pb)
+                       | None => false
+                       end) ib
+        | _, _ => false
+        end
+    | OOk _, _ => false        (* restriction of a generable registry must be generable *)
+    | _, _ => true
+    end
+  else true.
+
+Definition sorted_derives_case (c : tg_case) : bool :=
+  match items_of c with
+  | Some its =>
+      forallb (fun pit : list string * pitem =>
+                 (fix sorted (l : list tokens) :=
+                    match l with
+                    | a :: ((b :: _) as l') => str_ltb (key_of_tokens a) (key_of_tokens b) && sorted l'
+                    | _ => true
+                    end) (derive_list (pi_attrs (snd pit)))) its
+  | None => true
+  end.
+
+Definition prop_sorted_derives (p : tg_pair) : bool :=
+  sorted_derives_case (tp_a p) && sorted_derives_case (tp_b p).
+
+(** ** C09: frame relations between two token lists.
+    [erase] removes the tokens a switch governs; what remains must be equal. *)
+Fixpoint erase_attr (name : string) (fuel : nat) (toks : tokens) : tokens :=
+  match fuel with
+  | O => toks
+  | S fuel' =>
+      match toks with
+      | "#" :: "[" :: n :: r =>
+          if String.eqb n name then
+            match until_close 0 r with
+            | Some (_, rest) => erase_attr name fuel' rest
+            | None => toks
+            end
+          else "#" :: "[" :: n :: erase_attr name fuel' r
+      | t :: r => t :: erase_attr name fuel' r
+      | [] => []
+      end
+  end.
+
+(** replace every occurrence of the token list [a] by [b] *)
+Fixpoint strip_prefix (p toks : tokens) : option tokens :=
+  match p, toks with
+  | [], _ => Some toks
+  | x :: p', y :: t' => if String.eqb x y then strip_prefix p' t' else None
+  | _, [] => None
+  end.
+
+Fixpoint replace_sub (fuel : nat) (a b toks : tokens) : tokens :=
+  match fuel with
+  | O => toks
+  | S fuel' =>
+      match toks with
+      | [] => []
+      | t :: r =>
+          match a with
+          | [] => toks
+          | _ => match strip_prefix a toks with
+                 | Some rest => b ++ replace_sub fuel' a b rest
+                 | None => t :: replace_sub fuel' a b r
+                 end
+          end
+      end
+  end.
+
+Definition count_tok (x : string) (t : tokens) : nat := List.length (filter (String.eqb x) t).
+
+Definition frame_tokens (kind : string) (sa sb : settings) (ta tb : tokens) : bool :=
+  let n := S (List.length ta + List.length tb) in
+  if String.eqb kind "docs" then tokens_eqb (erase_attr "doc" n ta) (erase_attr "doc" n tb)
+  else if String.eqb kind "codec" then tokens_eqb (erase_attr "codec" n ta) (erase_attr "codec" n tb)
+  else if String.eqb kind "root" then
+    tokens_eqb (map (fun t => if String.eqb t (s_root sa) then s_root sb else t) ta) tb
+  else if String.eqb kind "alloc" then
+    (* every alloc-rooted path: <alloc> :: (vec|string|boxed|borrow|collections) *)
+    let heads := ["vec"; "string"; "boxed"; "borrow"; "collections"] in
+    let norm (al : tokens) (t : tokens) :=
+      fold_left (fun acc h => replace_sub n (al ++ [":"; ":"; h]) ["@alloc"; h] acc) heads t in
+    tokens_eqb (norm (alloc_tokens (s_alloc sa)) ta) (norm (alloc_tokens (s_alloc sb)) tb)
+  else if String.eqb kind "compact_path" then
+    match s_compact sa, s_compact sb with
+    | Some ca, Some cb => tokens_eqb (replace_sub n (ca ++ ["<"]) ["@compact"; "<"] ta)
+                                     (replace_sub n (cb ++ ["<"]) ["@compact"; "<"] tb)
+    | _, _ => true
+    end
+  else if String.eqb kind "bits_path" then
+    match s_bits sa, s_bits sb with
+    | Some ca, Some cb => tokens_eqb (replace_sub n (ca ++ ["<"]) ["@bits"; "<"] ta)
+                                     (replace_sub n (cb ++ ["<"]) ["@bits"; "<"] tb)
+    | _, _ => true
+    end
+  else true.
+
+Definition prop_frame (p : tg_pair) : bool :=
+  let sa := settings_of (tg_spec (tp_a p)) in
+  let sb := settings_of (tg_spec (tp_b p)) in
+  match tg_gen (tp_a p), tg_gen (tp_b p) with
+  | OOk ta, OOk tb =>
+      frame_tokens (tp_kind p) sa sb ta tb &&
+      forallb (fun ab : obs tokens * obs tokens =>
+                 match fst ab, snd ab with
+                 | OOk x, OOk y => frame_tokens (tp_kind p) sa sb x y
+                 | OErr k _ _, OErr k' _ _ => String.eqb k k'
+                 | OPanic, OPanic => true
+                 | _, _ => false
+                 end) (combine (tg_paths (tp_a p)) (tg_paths (tp_b p)))
+  | OErr k _ _, OErr k' _ _ => String.eqb k k'
+  | OPanic, OPanic => true
+  | _, _ => false
+  end.
+
+(** switches honoured (first sentence of C09), on one observed output *)
+Definition user_tokens (s : settings) : tokens :=
+  let dr := s_dreg s in
+  let ds := dr_default dr :: map snd (dr_specific dr) ++ map snd (dr_recursive dr) in
+  flat_map (fun d => flat_map snd (d_derives d) ++ flat_map snd (d_attrs d)) ds ++
+  flat_map (fun kv => print_spath (su_path (snd kv))) (s_subs s) ++
+  match s_compact s with Some t => t | None => [] end ++
+  match s_bits s with Some t => t | None => [] end ++
+  match s_compact_as s with Some k => snd k | None => [] end.
+
+Definition registry_idents (r : registry) : list string :=
+  flat_map (fun e =>
+              t_path (snd e) ++
+              match t_def (snd e) with
+              | TDComposite fs => flat_map (fun f => match f_name f with Some n => [n] | None => [] end) fs
+              | TDVariant vs => flat_map (fun v => v_name v ::
+                                                   flat_map (fun f => match f_name f with Some n => [n] | None => [] end)
+                                                            (v_fields v)) vs
+              | _ => []
+              end) r.
+
+Definition switches_case (c : tg_case) : bool :=
+  let r := tg_reg c in
+  let s := settings_of (tg_spec c) in
+  let inputs := user_tokens s ++ registry_idents r ++ [s_root s] in
+  let clean (w : string) := negb (existsb (String.eqb w) inputs) in
+  match tg_gen c with
+  | OOk t =>
+      (match s_alloc s with
+       | ACustom a => if clean "std" && negb (existsb (String.eqb "std") a) then Nat.eqb (count_tok "std" t) 0 else true
+       | AStd => true
+       end) &&
+      (if s_docs s then true else if clean "doc" then Nat.eqb (count_tok "doc" t) 0 else true) &&
+      (if s_codec s then true else if clean "codec" then Nat.eqb (count_tok "codec" t) 0 else true) &&
+      (* docs on: every item / variant carries exactly its registry doc lines in order;
+         codec on: every variant has its index, every compact field its marker *)
+      match parse_module t with
+      | None => false
+      | Some m =>
+          forallb (fun pit : list string * pitem =>
+                     match first_with_path r (fst pit) with
+                     | None => false
+                     | Some id =>
+                         match resolve r id with
+                         | None => false
+                         | Some ty =>
+                             let it := snd pit in
+                             (if s_docs s then list_eqb String.eqb (doc_lits (pi_attrs it)) (map lit_string (t_docs ty))
+                              else true) &&
+                             match t_def ty with
+                             | TDVariant vs =>
+                                 let pvs := filter (fun pv => negb (String.eqb (pv_name pv) "__Ignore")) (pi_variants it) in
+                                 Nat.eqb (List.length vs) (List.length pvs) &&
+                                 forallb (fun vp : variant * pvariant =>
+                                            (if s_docs s then list_eqb String.eqb (doc_lits (pv_attrs (snd vp)))
+                                                                       (map lit_string (v_docs (fst vp))) else true) &&
+                                            (if s_codec s then option_eqb String.eqb (codec_index_of (pv_attrs (snd vp)))
+                                                                          (Some (N_to_string (v_index (fst vp))))
+                                             else true)) (combine vs pvs)
+                             | _ => true
+                             end
+                         end
+                     end) (all_items m [])
+      end
+  | _ => true
+  end.
+
+Definition prop_switches (p : tg_pair) : bool := switches_case (tp_a p) && switches_case (tp_b p).
